@@ -60,6 +60,7 @@ fn run_history<F: Flt>(
     let mut nontrivial = false;
     let mut sweeps = 0u64;
     let n_ops = 1 + r.below(max_ops as u64) as usize;
+    let clone_at = if r.chance(0.2) { Some(r.below(n_ops as u64) as usize) } else { None };
     let p_del = if has_delete { 0.25 } else { 0.0 };
     let mut case = CaseHash::new(label);
     for step in 0..n_ops {
@@ -76,6 +77,11 @@ fn run_history<F: Flt>(
             Op::Insert(*r.pick(universe))
         };
         hist.push(op.clone());
+        if clone_at == Some(step) {
+            if let Some(c) = f.try_clone() {
+                f = c; // continue on a clone
+            }
+        }
         let res: Result<String, String> = guarded(|| match &op {
             Op::Insert(k) => {
                 case.push(*k);
@@ -257,6 +263,20 @@ fn mismatched_unions(ctx: &Ctx, i: usize, rep: &mut Report) {
             }
         }};
     }
+    // Extend is a loop of insert(): the extended filter must not lose any element
+    rep.evaluations += 1;
+    let res = guarded(|| -> Option<u64> {
+        use pdatastructs::filters::bloomfilter::BloomFilter;
+        use pdatastructs::filters::Filter;
+        let mut a: BloomFilter<u64> = BloomFilter::with_params(4096, 5);
+        a.extend(keys_a.iter().copied().filter(|k| k % 3 != 0));
+        keys_a.iter().copied().filter(|k| k % 3 != 0).find(|k| !a.query(k))
+    });
+    match res {
+        Ok(None) => {}
+        Ok(Some(k)) => rep.violation("C01/false-negative/bloom/after-extend", format!("key {} was fed through Extend::extend but is not reported present", k), json!({"missing_key": k})),
+        Err(msg) => rep.violation(format!("C01/panic/{}", panic_class(&msg)), msg, json!({})),
+    }
     let m = *r.pick(&[64usize, 1000, 65_536]);
     for (k1, k2) in [(7usize, 2usize), (2, 7), (3, 4), (12, 1)] {
         pair!(format!("bloom(m={},k={}) u bloom(m={},k={})", m, k1, m, k2), BloomCfg { m, k: k1, bh }.make(), BloomCfg { m, k: k2, bh }.make());
@@ -296,9 +316,13 @@ pub fn run(ctx: &Ctx) -> Report {
                 rep.config(&label);
                 let usz = 8 + r.below(200) as usize;
                 let u: Vec<u64> = (0..usz).map(|_| r.next()).collect();
-                for _ in 0..hists {
+                for h in 0..hists {
                     let c = cfg.clone();
-                    let o = run_history(&label, &|| c.make(), &u, cfg.m.min(64), &mut r, 60, None, rep);
+                    let o = if h % 4 == 3 && !matches!(cfg.bh.mode, HMode::Identity | HMode::Layout) {
+                        run_history(&format!("{}/str", label), &|| c.make_str(), &u, cfg.m.min(64), &mut r, 60, None, rep)
+                    } else {
+                        run_history(&label, &|| c.make(), &u, cfg.m.min(64), &mut r, 60, None, rep)
+                    };
                     rep.evaluations += o.ops as u64;
                     rep.count("sweep_queries", o.sweeps);
                     rep.count("histories", 1);
